@@ -143,6 +143,38 @@ class NBuilder(object):
             out.append(0.0)
         return tuple(out)
 
+    def spy(self, ghost, obj, method):
+        import inspect
+        real = getattr(obj, method)
+        log = ghost.setdefault("delegated", [])
+        sig = inspect.signature(real)
+
+        def wrapper(*a, **kw):
+            ba = sig.bind(*a, **kw)
+            ba.apply_defaults()
+            res = real(*a, **kw)
+            log.append((method, dict(ba.arguments), res))
+            return res
+        setattr(obj, method, wrapper)
+
+    def gcode_command(self, name, code="G1"):
+        """Build a real command string whose parameter words realise the model's items."""
+        v = self.model.get(name + ".items") or {}
+        words = []
+        for it in v.get("items", []):
+            c = it.get("code", 0)
+            if not (65 <= c <= 90):
+                continue
+            if it.get("none"):
+                words.append(chr(c))
+            else:
+                x = it.get("value")
+                if isinstance(x, dict):
+                    x = int(x["num"]) / int(x["den"]) if "num" in x else float(x.get("float", 0.0))
+                words.append("%s%r" % (chr(c), float(x)))
+        self.last_code = code
+        return (code + " " + " ".join(words)).strip()
+
     def ordmap(self, name):
         from collections import OrderedDict
         d = OrderedDict()
